@@ -240,9 +240,30 @@ theorem rzleStep_terminals {s s2 : Imp} (ht : Tree s.t) (hz : NoLeafZero s.t) (h
                 refine ⟨x, hx, ?_, ?_, ?_, ?_⟩ <;> split <;> rfl
             · simp at hdec
     · simp at hdec
-  obtain ⟨hE, hV, hN, hN', hEd, hfree, hzero⟩ := hmid
+  obtain ⟨hE0, hV0, hN0, hN0', hEd0, hfree, hzero⟩ := hmid
+  -- the same facts for the heap the contraction runs on (fix 6964517 may have copied attributes)
+  have hp := rzlePrep_spec s1 e.id tg src
+  have hE : (rzlePrep s1 e.id tg src).graphE = s.t.graphE := hp.graphE.trans hE0
+  have hV : (rzlePrep s1 e.id tg src).graphV = s.t.graphV := hp.graphV.trans hV0
+  have hN : ∀ n1 ∈ (rzlePrep s1 e.id tg src).nodes, ∃ n ∈ s.t.nodes, n.id = n1.id ∧ n.point = n1.point := by
+    intro n1 hn1
+    obtain ⟨m, hm, hid, _, _, hpt⟩ := hp.back n1 hn1
+    obtain ⟨n, hn, hid', hpt'⟩ := hN0 m hm
+    exact ⟨n, hn, hid'.trans hid, hpt'.trans hpt⟩
+  have hN' : ∀ n ∈ s.t.nodes, ∃ n1 ∈ (rzlePrep s1 e.id tg src).nodes, n1.id = n.id ∧ n1.point = n.point := by
+    intro n hn
+    obtain ⟨m, hm, hid, hpt⟩ := hN0' n hn
+    obtain ⟨n1, hn1, hid', _, _, hpt'⟩ := hp.fwd m hm
+    exact ⟨n1, hn1, hid'.trans hid, hpt'.trans hpt⟩
+  have hEd : ∀ x1 ∈ (rzlePrep s1 e.id tg src).edges, ∃ x ∈ s.t.edges, x.id = x1.id ∧ x.e1 = x1.e1 ∧
+      x.e2 = x1.e2 ∧ x.hasFixedRoute = x1.hasFixedRoute := by
+    intro x1 hx1
+    rw [hp.edges] at hx1
+    exact hEd0 x1 hx1
+  have ht1 := hp.tree ht1
+  have hj1 := hp.joinsId hj1
   -- transport the hypotheses to `s1.t`
-  have hz1 : NoLeafZero s1.t := by
+  have hz1 : NoLeafZero (rzlePrep s1 e.id tg src) := by
     intro x1 hx1 hf1 hzl a b hj
     obtain ⟨x, hx, _, h1, h2, h3⟩ := hEd x1 hx1
     rw [hE]
@@ -254,7 +275,7 @@ theorem rzleStep_terminals {s s2 : Imp} (ht : Tree s.t) (hz : NoLeafZero s.t) (h
     · rcases hj with ⟨j1, j2⟩ | ⟨j1, j2⟩
       · exact Or.inl ⟨by rw [h1]; exact j1, by rw [h2]; exact j2⟩
       · exact Or.inr ⟨by rw [h1]; exact j1, by rw [h2]; exact j2⟩
-  have hT1 : LeavesAre s1.t.graphV s1.t.graphE T := by rw [hE, hV]; exact hT
+  have hT1 : LeavesAre (rzlePrep s1 e.id tg src).graphV (rzlePrep s1 e.id tg src).graphE T := by rw [hE, hV]; exact hT
   obtain ⟨e1, he1, heid, hj⟩ := hj1
   obtain ⟨t2', hc', ht2, hspec⟩ := contract_tree ht1 he1 hj
   rw [heid, hc] at hc'
@@ -262,13 +283,13 @@ theorem rzleStep_terminals {s s2 : Imp} (ht : Tree s.t) (hz : NoLeafZero s.t) (h
   -- `e1` is `e` up to the cleared connector pointer: zero-length and not fixed in `s1.t` too
   obtain ⟨x, hx, hxid, h1, h2, h3⟩ := hEd e1 he1
   have hxe : x = e := ht.1.edge_eq hx he (hxid.trans heid)
-  subst hxe
-  have hzero1 : ZeroLen s1.t e1 := by
+  rw [hxe] at h1 h2 h3
+  have hzero1 : ZeroLen (rzlePrep s1 e.id tg src) e1 := by
     obtain ⟨na, hna, nb, hnb, g1, g2, hp⟩ := hzero
     obtain ⟨n, hn, hid, hpt⟩ := hN' na hna
     obtain ⟨m, hm, hid', hpt'⟩ := hN' nb hnb
     exact ⟨n, hn, m, hm, by rw [← h1, g1, hid], by rw [← h2, g2, hid'], by rw [hpt, hpt', hp]⟩
-  have hzc : ZContract s1.t t2 e1 tg src := ⟨ht1, he1, hj, hzero1, by rw [← h3]; exact hfree, hspec⟩
+  have hzc : ZContract (rzlePrep s1 e.id tg src) t2 e1 tg src := ⟨ht1, he1, hj, hzero1, by rw [← h3]; exact hfree, hspec⟩
   exact ⟨ht2, hzc.noLeafZero hz1, hzc.leaves hz1 T hT1⟩
 
 /-- `removeZeroLengthEdges(node, ignored)`: if no zero-length non-fixed edge ends at a leaf, the traversal
